@@ -207,7 +207,8 @@ def delaunay_rule(ctx, p, K):
     ctx.ob(rule, m.key + ":vertices-call", got == {"source_plane_data_grid": "self.source_plane_data_grid", "simplex_index_for_sub_slim_index": "self.delaunay.find_simplex(self.source_plane_data_grid)", "pix_indexes_for_simplex_index": "self.delaunay.simplices", "delaunay_points": "self.delaunay.points"},
            where=m, node=cs[0] if cs else m.node, construct=str(got), message="the vertex table must come from the triangulation's own simplices / points and the simplex found for the data grid")
     txt = {norm_text(n.targets[0]): norm_text(n.value) for n in m.body_nodes() if isinstance(n, ast.Assign)}
-    ctx.ob(rule, m.key + ":simplex", txt.get("simplex_index_for_sub_slim_index") == "delaunay.find_simplex(self.source_plane_data_grid)" and txt.get("pix_indexes_for_simplex_index") == "delaunay.simplices" and txt.get("delaunay") == "self.delaunay",
+    # (aliases of attribute chains are propagated by the canonicalisation pass, N15; the vertices-call obligation above already binds simplices / points / find_simplex to self.delaunay)
+    ctx.ob(rule, m.key + ":simplex", txt.get("simplex_index_for_sub_slim_index") in ("delaunay.find_simplex(self.source_plane_data_grid)", "self.delaunay.find_simplex(self.source_plane_data_grid)") and txt.get("delaunay", "self.delaunay") == "self.delaunay",
            where=m, node=m.node, construct=str({k: v for k, v in txt.items() if "simplex" in k}), message="the containing simplex must be looked up for the source-plane data grid in the mesh's own triangulation")
 
 
